@@ -4,8 +4,11 @@ The function emits statements only through `ast.addLookupReferences` (under cont
 `Comment("")` separators.  Its calls are recorded in the ghost field `feature.calls` (script tag, lookups, languages, the Unicode script being processed,
 the offset in feature.statements at which the section starts); the postconditions speak about that trace:
 every call is either the DFLT call or the call for an OpenType tag of a kerned Unicode script of the right kind (kern: not dist-enabled, dist:
-dist-enabled; never Zyyy/Zinh), its languages are exactly the languages DECLARED for that tag in the feature file (or ["dflt"] when none is), and the
-section stands in feature.statements at the recorded offset.
+dist-enabled; never Zyyy/Zinh), and its languages are exactly the languages DECLARED for that tag in the feature file (or ["dflt"] when none is).
+What each call appends is the callee's proved equation; the recorded offset `at` says where.  NOT stated here: completeness (every kerned script IS
+registered, DFLT whenever a common / LTR / RTL lookup exists) and the content of the lookup lists - those stay with the hook's bounded part.
+Branches are merged (default): 45 + 41 obligations; with merge_branches=False the same clauses give 320 + 129 path obligations, all discharged too, but
+the run takes 3 min.
 """
 import types as _types
 
@@ -139,7 +142,7 @@ def reg_variant(name, kern, props, extra_requires=()):
     params={"feature": Ref("c20_Block"), "lookups": Dict(STR, Dict(STR, Ref(NODE))), "feaLanguagesByScript": Dict(STR, List(STR))},
     globals={"ast": Val.obj(_AST), "script_direction": Val.obj(FuncRef(None, "c20.script_direction")), "unicodedata": Val.obj(_UD),
              "DIST_ENABLED_SCRIPTS": Val(Set(STR), z3.Const("spec_c20_dist_scripts", Set(STR).sort()))},
-    requires=["len(feature.calls) == 0", ("feature.name == 'kern'" if kern else "feature.name != 'kern'"), "all(any(True for k in lookups[s]) for s in lookups)", *extra_requires, "all(len(t) > 0 for s in lookups for t in c20_ot_tags(s))" if False else "True"],
+    requires=["len(feature.calls) == 0", ("feature.name == 'kern'" if kern else "feature.name != 'kern'"), "all(any(True for k in lookups[s]) for s in lookups)", *extra_requires],
     ensures={
         **{nm: f"all({cl} for q in range(len({_CALLS})))" for nm, cl in _call_parts(_CALLS + "[q]").items()},
         "with-exactly-the-declared-languages": "all(" + _LANGS.format(cq=_CALLS + "[q]") + f" for q in range(len({_CALLS})))",
@@ -153,7 +156,6 @@ def reg_variant(name, kern, props, extra_requires=()):
         "for tag in unicodedata.ot_tags_from_script(script)": Loop(index="t", seq="TG", invariants=_INV),
         "for dfltScript in DFLT_SCRIPTS": Loop(unroll=True),
     },
-    merge_branches=False,
     dict_key_positions=False,  # the key-position Skolem fact of the merged dict derails the solvers on the loop steps
     hints={"lookupsForThisScript.update(lookups[script])": ["all(k in lookupsForThisScript for k in lookups[script])", "len(lookupsForThisScript) > 0"]},
     ghost_vars={"g_loop": (BOOL, "False")},
@@ -171,6 +173,33 @@ import collections as _collections
 
 _CallT = _collections.namedtuple("c20_Call", "script lookups languages loop src at ti")
 CLASSES["c20_Block"].views["calls"] = lambda o: list(getattr(o, "_c20_calls", []))
+
+
+def traced(feature, invoke):
+    """run `invoke()` with ast.addLookupReferences / unicodedata.ot_tags_from_script wrapped so that every call is recorded in feature._c20_calls"""
+    import fontTools.unicodedata as ud
+
+    from ufo2ft.featureWriters import ast as uast
+
+    state = {"src": None, "ti": 0, "loop": False}
+    real_alr, real_tags = uast.addLookupReferences, ud.ot_tags_from_script
+
+    def tags(script):
+        state.update(src=script, ti=0, loop=True)
+        return real_tags(script)
+
+    def alr(feat, lookups, script=None, languages=None, exclude_dflt=False):
+        lks = list(lookups)
+        at = len(feat.statements)
+        feat._c20_calls.append(_CallT(script, [M.P(x) for x in lks], list(languages), state["loop"], state["src"] or "", at, state["ti"] if state["loop"] else 0))
+        state["ti"] += 1
+        return real_alr(feat, lks, script, languages, exclude_dflt)
+
+    uast.addLookupReferences, ud.ot_tags_from_script = alr, tags
+    try:
+        return invoke()
+    finally:
+        uast.addLookupReferences, ud.ot_tags_from_script = real_alr, real_tags
 
 
 def _reg_cases(kern):
@@ -192,33 +221,7 @@ def _reg_cases(kern):
         lookups = {s: {f"kern_{s}_{i}": fa.LookupBlock(f"kern_{s}_{i}") for i in range(nl)} for s, nl in d["scripts"].items()}
         return {"feature": f, "lookups": lookups, "feaLanguagesByScript": {k: list(v) for k, v in d["langs"].items()}}
 
-    def call(fn, a):
-        import fontTools.unicodedata as ud
-
-        from ufo2ft.featureWriters import ast as uast
-
-        feature = a["feature"]
-        state = {"src": None, "ti": 0, "loop": False}
-        real_alr, real_tags = uast.addLookupReferences, ud.ot_tags_from_script
-
-        def tags(script):
-            state.update(src=script, ti=0, loop=True)
-            return real_tags(script)
-
-        def alr(feat, lookups, script=None, languages=None, exclude_dflt=False):
-            lks = list(lookups)
-            at = len(feat.statements)
-            feat._c20_calls.append(_CallT(script, [M.P(x) for x in lks], list(languages), state["loop"], state["src"] or "", at, state["ti"] if state["loop"] else 0))
-            state["ti"] += 1
-            return real_alr(feat, lks, script, languages, exclude_dflt)
-
-        uast.addLookupReferences, ud.ot_tags_from_script = alr, tags
-        try:
-            return fn(feature, a["lookups"], a["feaLanguagesByScript"])
-        finally:
-            uast.addLookupReferences, ud.ot_tags_from_script = real_alr, real_tags
-
-    return Runtime(gen, build, call=call)
+    return Runtime(gen, build, call=lambda fn, a: traced(a["feature"], lambda: fn(a["feature"], a["lookups"], a["feaLanguagesByScript"])))
 
 
 CONTRACTS[KFW + "._registerLookups#kern"].runtime = _reg_cases(True)
